@@ -21,7 +21,7 @@ Theorem universal_families t pbs :
     strong_decompose_full (with_direction t DBackward) = SOk pb /\
     pbs = pf ++ pb.
 Proof.
-  intros Hd. unfold strong_decompose_full, with_direction.
+  intros Hd. unfold strong_decompose_full, strong_decompose_full_fuel, with_direction.
   cbn [st_left st_right st_decomposition st_direction st_repr st_simplify st_break]. rewrite Hd.
   repeat match goal with
          | |- context [sbind ?x _] => destruct x; cbn [sbind]; try discriminate
